@@ -55,6 +55,16 @@ impl Timer {
     self.cycle_count
   }
 
+  #[cfg(gb_dynarec_verif)]
+  pub fn verif_set_cycle_count(&mut self, value: u32) {
+    self.cycle_count = value;
+  }
+
+  #[cfg(gb_dynarec_verif)]
+  pub fn verif_get_cycle_count(&self) -> u32 {
+    self.cycle_count
+  }
+
   pub fn set_counter(&mut self, value: u8) {
     self.counter = value;
   }
@@ -124,6 +134,8 @@ impl Timer {
   }
 
   pub fn run_cycles(&mut self, clock_cycles: ClockCycles) -> InterruptFlag {
+    #[cfg(gb_dynarec_verif)]
+    crate::mem::verif::clock(0, clock_cycles.as_usize());
     let cycles = clock_cycles.as_u32();
     if self.enabled_mask == 0 {
       // skip the edge checking
